@@ -249,7 +249,7 @@ static void
 title(html_instance *html, vbi_page *pg)
 {
 	if (pg->pgno < 0x100) {
-		puts ("title lang=\"en\">");
+		puts ("<title lang=\"en\">");
 	} else {
 		/* TRANSLATORS: "lang=\"en\" refers to the page title
 		   "Teletext Page ...". Please specify "de", "fr", "es" etc. */
